@@ -18,4 +18,4 @@ CFG = {'streams': [{'name': 'C09',
                  'regex crate: modelled by Model/Regex.v on the generated sub-language (validated by stream C10rx); stdlib functions: Model/Stdlib.v '
                  '(validated by C13)',
                  'syntax nodes are identified by preorder index (KeyInjective: node ids distinct modulo 2^32, checked per tree in C04)',
-                 'functions supplied by the caller only extend the graph (true of the stdlib: only `node` touches it)']}
+                 'functions supplied by the caller only extend the graph (PROVED for the stdlib: stdlib_extends, stdlib_extends_sorted, run_extends_strict_stdlib, run_extends_lazy_stdlib)']}
